@@ -173,6 +173,7 @@ func boot(opt Options) (s *Sim, err error) {
 	client.SetupEntity(ms)
 	transaction.SetupEntity(ms)
 	setupsc.SetupSmartContracts()
+	registerPuppet()
 
 	c := chain.NewChainFromConfig()
 	c.SetupStateCache()
